@@ -1175,6 +1175,39 @@ impl World {
         true
     }
 
+    /// A policy *object* that no string yields: `<invalid> OR broadcast` (the parser and `|` fold
+    /// it into broadcast at once). Its DNF has the empty clause next to a clause naming an unknown
+    /// attribute: as for any policy with an unknown name, the user-side calls must refuse it and
+    /// leave the master key alone.
+    fn raw_tautology_probe(&mut self, op: &Op, invalid_text: &str) {
+        let Some(bad) = self.to_real_policy(invalid_text) else { return };
+        let flip = self.log.len() % 2 == 0;
+        let ap = if flip {
+            AccessPolicy::Disjunction(Box::new(AccessPolicy::Broadcast), Box::new(bad))
+        } else {
+            AccessPolicy::Disjunction(Box::new(bad), Box::new(AccessPolicy::Broadcast))
+        };
+        let before = self.msk_snapshot();
+        let agreed = match op {
+            Op::Keygen { .. } => {
+                let out = call(|| self.cc.generate_user_secret_key(&mut self.msk, &ap));
+                self.agree(op, false, "unknown-name-next-to-broadcast", &out)
+            }
+            Op::Rekey { .. } => {
+                let out = call(|| self.cc.rekey(&mut self.msk, &ap));
+                self.agree(op, false, "unknown-name-next-to-broadcast", &out)
+            }
+            _ => {
+                let out = call(|| self.cc.prune_master_secret_key(&mut self.msk, &ap));
+                self.agree(op, false, "unknown-name-next-to-broadcast", &out)
+            }
+        };
+        self.stats.bump("raw_tautology_probes");
+        if agreed == Some(false) {
+            self.unchanged_msk(&before, op);
+        }
+    }
+
     fn to_real_policy(&mut self, text: &str) -> Option<AccessPolicy> {
         match real::parse(text) {
             Out::Ok(p) => Some(p),
@@ -1208,6 +1241,12 @@ impl World {
         }
         self.log.push(op.describe());
         self.stats.bump(&format!("op_{}", op.kind()));
+        if let Op::Keygen { text, .. } | Op::Rekey { text, .. } | Op::Prune { text, .. } = op {
+            if let Some(rest) = text.strip_prefix(RAW_TAUTOLOGY) {
+                self.raw_tautology_probe(op, rest);
+                return;
+            }
+        }
         match op {
             Op::AddDim { name, ordered } => {
                 let before = self.msk_snapshot();
@@ -2020,6 +2059,9 @@ fn has_dup_clause(pol: &Pol) -> bool {
     })
 }
 
+/// Marks a policy text that is to be OR-ed with `AccessPolicy::Broadcast` as an object.
+pub const RAW_TAUTOLOGY: &str = "\u{1}raw-or-broadcast\u{1}";
+
 pub struct Gen {
     pub rng: Rng,
 }
@@ -2100,6 +2142,22 @@ impl Gen {
     /// A policy that is invalid on purpose; returns the documented reason.
     fn invalid_policy(&mut self, st: &MStruct, for_encryption: bool) -> Pol {
         let attrs = st.all_attrs();
+        // a disjunction only one clause of which is invalid, before or after valid ones: the call
+        // must fail as a whole (and must not have acted on the valid clauses)
+        if !attrs.is_empty() && self.rng.chance(1, 3) {
+            let bad = if self.rng.chance(1, 2) { Pol::attr("Nope", "A") } else { Pol::attr(&attrs[0].0, "Missing") };
+            let good = self.policy(st, 3);
+            if good != Pol::All {
+                let mut v = vec![good];
+                if self.rng.chance(1, 2) {
+                    v.push(self.policy(st, 2));
+                    v.retain(|p| *p != Pol::All);
+                }
+                let at = self.rng.below(v.len() + 1);
+                v.insert(at, bad);
+                return Pol::Or(v);
+            }
+        }
         match self.rng.below(if for_encryption { 3 } else { 4 }) {
             0 => Pol::attr("Nope", "A"),
             // an unknown attribute before / after a known one of the same dimension
@@ -2356,7 +2414,11 @@ impl Gen {
                 6 => return Op::Update,
                 7 | 8 | 9 => {
                     let pol = if invalid { self.invalid_policy(st, false) } else { self.policy(st, 5) };
-                    let text = pol.print(&mut self.rng);
+                    let mut text = pol.print(&mut self.rng);
+                    if invalid && st.user_rights(&pol).is_err() && pol.dnf().iter().all(|c| !c.is_empty()) && self.rng.chance(1, 3) {
+                        // the same invalid clause, OR-ed with broadcast as an object (see the probe)
+                        text = format!("{RAW_TAUTOLOGY}{text}");
+                    }
                     return match k {
                         7 => Op::Rekey { pol, text },
                         8 => Op::Prune { pol, text },
